@@ -1210,6 +1210,8 @@ def oracle_C10(inp):
                     us = unfold_search(s)
                     if not us or not all(k in u.fields for u in us):
                         continue
+                    if not rule.get("allow_override") and any(u.fields[k] not in ("*", val) for u in us):
+                        continue   # the filter contradicts a concrete value of the search: known finding K5
                     filt = find(mk, s + "?" + k + "=" + val)
                     exp = {r for r in base if Sid(r).get(k) == val}
                     if set(filt) != exp:
